@@ -65,6 +65,7 @@ class TaskTypestate:
         self.created = {}  # var -> (source text, lineno)
         self.sets = {}  # local name -> tuple of handle names (e.g. `pending` of `done, pending = await wait(S)`)
         self.on_finding = on_finding
+        self.on_await = None  # callback(stmt, awaited expression, state before) for every statement-level await
 
     def finding(self, line, var, what):
         src = self.created.get(var, (var, line))[0]
@@ -140,6 +141,8 @@ class TaskTypestate:
             tgts = s.targets if isinstance(s, ast.Assign) else [s.target]
             aw = isinstance(val, ast.Await)
             inner = val.value if aw else val
+            if aw and self.on_await:
+                self.on_await(s, inner, dict(st))
             if isinstance(inner, ast.Call):
                 if creates_task(inner) and len(tgts) == 1 and isinstance(tgts[0], ast.Name):
                     v = tgts[0].id
@@ -158,6 +161,8 @@ class TaskTypestate:
             aw = isinstance(e, ast.Await)
             if aw:
                 e = e.value
+                if self.on_await:
+                    self.on_await(s, e, dict(st))
             if isinstance(e, ast.Call):
                 self.do_call(e, st, aw)
             elif aw and isinstance(e, ast.Name) and e.id in st:
